@@ -13,13 +13,34 @@ COMMON_NOTE = ("Trusted: Verus/Z3, Kani/CBMC, rustc, the extractor's rule catalo
 
 PROPS = {
     'C01': dict(
-        v=['C01_kernels'],
+        v=['C01_kernels', 'C01_raft'],
         k=[('tensor_chain', ['c01_quorum_majority'])],
         b=[],
         level='other',
-        technique='Verus contracts on extracted Raft kernels + Kani full-domain harness; lemmas',
-        claim='quorum arithmetic and log-index conversion proved for all inputs (Verus + Kani); quorum-intersection lemma',
-        explanation='Per-function contracts on the Raft arithmetic kernels are discharged deductively; the history-level induction over N nodes x network is not claimed.',
+        technique='Verus contracts on the extracted Raft handlers (vote, append, commit) and kernels + election-safety lemma; Kani full-domain quorum harness',
+        claim='per-handler Raft safety obligations proved for every node state and message, modulo the stated abstraction rules (locks erased, ids abstract, WAL/health externals): vote at most once per term and only for an up-to-date log, append consistency, acknowledgement and commit bounded by the verified prefix, commit only current-term entries acked by a quorum; quorum arithmetic (Verus + Kani); election-safety lemma',
+        explanation='Per-function contracts on the real handlers are discharged deductively (level: proof modulo R4/R8-R13, listed); the history-level induction over N nodes x network x crashes is NOT claimed — the lemmas show how the per-handler contracts compose.',
+    ),
+    'C02': dict(
+        v=['C02_replay'], k=[], b=[],
+        level='other',
+        technique='Verus: extracted WAL replay loop proved equal to a parse spec over a ghost byte stream + crash-prefix / whole-log theorems',
+        claim='TensorWal::replay_with_validation returns exactly parse(file) for every file content (Verus, modulo assumed read_exact/crc/codec contracts); parse(log ++ torn record) == log for every cut point (theorem)',
+        explanation='Replay/parse and the crash-prefix theorem are proved for all logs and all cut points; open/append/recover/checkpoint sequences on real files are bounded.',
+    ),
+    'C10': dict(
+        v=['C10_fold'], k=[], b=[],
+        level='other',
+        technique='Verus: extracted RaftRecoveryState::from_entries proved equal to term/vote and log folds written from the property + stickiness lemmas',
+        claim='recovered (term, vote) = highest acted-on term and the FIRST vote recorded in it, recovered log = appended entries after truncations in index order, for every WAL entry sequence (Verus; BTreeMap by assumed contract)',
+        explanation='Recovery fold proved for all entry sequences; file-level crash/restart sequences are bounded.',
+    ),
+    'C12': dict(
+        v=['C12_locks'], k=[], b=[],
+        level='other',
+        technique='Verus: extracted LockManager::try_lock proved all-or-nothing over a real HashMap (vstd model), clock uninterpreted',
+        claim='try_lock: refusal names a live conflicting holder and changes nothing; grant only if no requested key is held by another live transaction, then all requested keys are held with one handle and every other key is untouched (Verus, all tables and key sets, locks erased)',
+        explanation='Grant/refuse contract proved; release/cleanup/wait-graph/cycle detection bounded.',
     ),
     'C04': dict(
         v=[], k=[('relational_engine', ['c04_ordfloat_total_order', 'c04_ordfloat_eq_implies_cmp_equal'])], b=[],
